@@ -19,13 +19,12 @@ THEOREMS = [
     "shouldFinish_new", "block_roundtrip_plain_of", "block_roundtrip_plain_fixed", "block_roundtrip_nullable", "block_roundtrip_plain_char",
     "block_roundtrip_rle", "block_roundtrip_dict", "block_roundtrip_blob", "column_roundtrip", "column_roundtrip_exact",
     "iter_refines_slice_partial", "iter_refines_slice_scan",
-    "nonnullable_null_witness", "nullable_cross_block_witness", "char_embedded_nul_witness",
+    "nonnullable_null_witness", "nullable_cross_block_regression", "replace_whole_bitmap_loses_rows", "char_embedded_nul_witness",
     "rle_eq_not_identity_witness", "cut_concat", "cut_blocks_nonempty", "index_exact", "index_covers",
 ]
 
 KNOWN_REASONS = {
     # reason tag computed by the model / oracle  ->  signature in known_findings/C06.json
-    "nullable-batch-crosses-block": "iter:nullable-batch-crosses-block",
     "null-in-nonnullable": "nonnullable:null-reads-default",
     "char-embedded-nul": "char:embedded-nul-truncates",
     "f64-eq-nonidentical": "rle-dict:f64-eq-collapses-bit-patterns",
@@ -226,9 +225,10 @@ def walk(req, ans, norm=None):
 
 def classify(req, ans, same_as_model):
     """Attributes an oracle failure to known mechanisms using the request itself (what was
-    written, how it was read) and the answer's own index — never the model's prediction, except
-    that the cross-block mechanism additionally requires the model (which implements
-    `replace_bitmap`) to predict exactly the same output.  -> list of reason tags or None."""
+    written, how it was read) and the answer's own index — never the model's prediction.
+    (A batch spanning two blocks of a plain nullable column used to be one of them,
+    `iter:nullable-batch-crosses-block`; repaired in /repo, so such a failure is a violation.)
+    -> list of reason tags or None."""
     norms = []
     if not req["nullable"] and "null" in req["vals"]:
         norms.append(("null-in-nonnullable", norm_null_default(req)))
@@ -255,20 +255,6 @@ def classify(req, ans, same_as_model):
         nm = (compose([x[1][0] for x in norms]), compose([x[1][1] for x in norms]))
         if walk(req, ans, nm)[0] == "ok":
             return [x[0] for x in norms]
-    # a batch spanning two blocks of a plain nullable column (possibly on top of the value-level
-    # mechanisms above): judged on the walk under all applicable normalisations
-    def compose(fs):
-        def f(v):
-            for g in fs:
-                v = g(v)
-            return v
-        return f
-    nm_all = (compose([x[1][0] for x in norms]), compose([x[1][1] for x in norms])) if norms else None
-    v, r, d, info = walk(req, ans, nm_all)
-    # (the vector column builder ignores the encode type: its blocks are always plain)
-    plain = req["enc"] == "plain" or req["ty"] == "vec"
-    if req["nullable"] and plain and info["crossing"] and same_as_model:
-        return ["nullable-batch-crosses-block"] + [x[0] for x in norms]
     return None
 
 
@@ -413,7 +399,7 @@ def run(ck):
         "samples": [r[:300] for r in gen_lines[:3] + corpus[:2]],
         "model_vs_impl": mvi, "impl_vs_oracle": ivo, "model_vs_oracle": mvo,
         "not_modelled_byte_exact": ["decimal", "interval", "timestamp", "vector"],
-        "unproved": ["iter_refines_slice for programs with skip / a start row > 0 (skip_inner, fake iterator, block_of_row) and for plain-nullable columns under the fetch_hint discipline: covered by the correspondence run only"],
+        "unproved": ["iter_refines_slice for programs with skip / a start row > 0 (skip_inner, fake iterator, block_of_row): covered by the correspondence run only"],
     })
     return ck.finish(level="proof", checker_cmd="translator/gen_consts.py; lake build RlModel.Thm.C06 drv_c06; #print axioms audit",
                      trusted_base=["Lean 4 kernel (axioms: propext, Classical.choice, Quot.sound)",
